@@ -291,6 +291,63 @@ def deep_super_case(rng, ordered=False, min_obj=5, max_obj=7, max_fam=5, max_sp=
     return hostile_family_names(rng, {"kind": "super", "G": G, "S": S, "leafmap": lm, "syn": syn, "costs": c})
 
 
+def chain_case(rng, max_chain=7):
+    """Expensive-but-finite transfers that still pay off: a caterpillar object tree whose bottom cherry holds one
+    'foreign' leaf (living in another deep clade of the species tree) under a chain of 3-7 ancestors whose other
+    children all live near the donor; transfer cost 5-60 with small duplication / loss costs.  A single transfer then
+    saves several losses at EVERY ancestor of the chain, so bounds of the kind 'a transfer never beats a duplication
+    plus a few losses' are wrong exactly here."""
+    ns = rng.choice([2, 4, 4, 6, 8])
+    spl = species_labels(min(ns, 12))
+    S = RT.balanced(list(spl)) if rng.random() < 0.6 else RT.random_tree_shape(rng, spl)
+    home, foreign = spl[0], spl[-1]
+    near = [s for s in spl[: max(1, len(spl) // 2)]]
+    k = rng.randint(3, max_chain)
+    labels = object_labels(k + 2)
+    lm = {labels[0]: home, labels[1]: foreign}
+    tree = [labels[0], labels[1]] if rng.random() < 0.5 else [labels[1], labels[0]]
+    for i in range(k):
+        lm[labels[i + 2]] = home if rng.random() < 0.7 else rng.choice(near)
+        tree = [tree, labels[i + 2]] if rng.random() < 0.7 else [labels[i + 2], tree]
+    c = {"spe": 0, "dup": rng.choice([0, 1, 1, 2]), "hgt": rng.choice([5, 6, 8, 10, 13, 17, 25, 40, 60]), "floss": rng.choice([1, 1, 2, 3]), "sloss": 1}
+    return tree, S, lm, c
+
+
+def block_dup_input(rng, max_leaves=10):
+    """Object trees made of duplicated BLOCKS: a sub-tree and a copy of it (same species leaf by leaf) as siblings,
+    nested and joined with other blocks - the shape whole-region duplications leave behind.  Both copies of a block
+    cover exactly the same stretch of the species tree; blocks sit next to blocks that live in a single grandchild."""
+    ns = rng.randint(3, 6)
+    spl = species_labels(ns)
+    S = RT.random_tree_shape(rng, spl, kind=rng.choice(["cat", "rand", "bal", "rand"]))
+
+    def block(budget):
+        r = rng.random()
+        if budget <= 1 or r < 0.25:
+            return rng.choice(spl)
+        if r < 0.6 and budget >= 2:
+            b = block(budget // 2)
+            return [b, b]  # duplicated block (the copy is the same species pattern)
+        k = rng.randint(1, budget - 1)
+        return [block(k), block(budget - k)]
+
+    shape = block(rng.randint(4, max_leaves))
+    if isinstance(shape, str):
+        shape = [shape, shape]
+    counter = [0]
+    lm = {}
+
+    def name(x):
+        if isinstance(x, str):
+            g = f"g{counter[0]}"
+            counter[0] += 1
+            lm[g] = x
+            return g
+        return [name(c) for c in x]
+
+    return name(shape), S, lm
+
+
 HOSTILE_FAMILIES = ["g1", "g01", "g001", "g10", "a", "b", "ab", "ba", "16S", "5", "05", "cas1", "Cas1", "x_y", "x", "_y"]
 
 
